@@ -179,6 +179,7 @@ class WSStream:
         self.app_put: Optional[Callable] = None
         self.buffer = WebsocketBuffer(config.websocket_max_message_size)
         self.client = client
+        self.client_close_code: Optional[int] = None
         self.closed = False
         self.config = config
         self.context = context
@@ -246,6 +247,8 @@ class WSStream:
             if self.app_put is not None:
                 if self.state in {ASGIWebsocketState.HTTPCLOSED, ASGIWebsocketState.CLOSED}:
                     code = CloseReason.NORMAL_CLOSURE.value
+                elif self.client_close_code is not None:
+                    code = self.client_close_code
                 else:
                     code = CloseReason.ABNORMAL_CLOSURE.value
                 await self.app_put({"type": "websocket.disconnect", "code": code})
@@ -321,6 +324,7 @@ class WSStream:
                 await self._send_wsproto_event(event.response())
             elif isinstance(event, CloseConnection):
                 if self.connection.state == ConnectionState.REMOTE_CLOSING:
+                    self.client_close_code = int(event.code)
                     await self._send_wsproto_event(event.response())
                 await self.send(StreamClosed(stream_id=self.stream_id))
 
